@@ -184,7 +184,9 @@ func (t *fnTrans) call(ins ssa.Instruction, c *ssa.CallCommon, res ssa.Value) {
 		if cl.Known != "" {
 			continue
 		}
-		t.assume(env.evalBool(cl.Expr))
+		for _, pe := range splitConj(cl.Expr) {
+			t.assume(env.evalBool(pe))
+		}
 	}
 	for _, e := range env.errs {
 		t.errorf("contract of %s at call site: %s", name, e)
@@ -543,8 +545,10 @@ func (t *fnTrans) havocLoc(loc string, env *specEnv, pre *State) {
 			na := t.freshConst("ha", inner)
 			t.nfr++
 			bv := q(fmt.Sprintf("j!q%d", t.nfr))
-			t.assume(fmt.Sprintf("(forall ((%s Int)) (! %s :pattern ((select %s %s))))", bv,
-				imp(or(lt(bv, l.lo), le(l.hi, bv)), eq(sel(na, bv), sel(sel(old, l.ref), bv))), na, bv))
+			hb := imp(or(lt(bv, l.lo), le(l.hi, bv)), eq(sel(na, bv), sel(sel(old, l.ref), bv)))
+			hq := fmt.Sprintf("(forall ((%s Int)) (! %s :pattern ((select %s %s))))", bv, hb, na, bv)
+			regFinite(hq, bv, sub(l.lo, "4"), hb)
+			t.assume(hq)
 			t.heapSet(t.st, hn, hs, sto(old, l.ref, na))
 		case locAllField, locAllElems, locHeap:
 			t.heapHavoc(t.st, hn, hs)
@@ -711,8 +715,10 @@ func (t *fnTrans) builtin(ins ssa.Instruction, c *ssa.CallCommon, res ssa.Value,
 			bv := q(fmt.Sprintf("j!q%d", t.nfr))
 			inr := and(le(d.C[1], bv), lt(bv, add(d.C[1], n)))
 			srcv := sel(sel(old, s.C[0]), add(s.C[1], sub(bv, d.C[1])))
-			t.assume(fmt.Sprintf("(forall ((%s Int)) (! %s :pattern ((select %s %s))))", bv,
-				eq(sel(na, bv), ite(inr, srcv, sel(sel(old, d.C[0]), bv))), na, bv))
+			cb := eq(sel(na, bv), ite(inr, srcv, sel(sel(old, d.C[0]), bv)))
+			cq := fmt.Sprintf("(forall ((%s Int)) (! %s :pattern ((select %s %s))))", bv, cb, na, bv)
+			regFinite(cq, bv, sub(d.C[1], "2"), cb)
+			t.assume(cq)
 			// a nil destination (arr 0) copies nothing: n = 0, store is harmless
 			t.heapSet(t.st, hn, hs, sto(old, d.C[0], na))
 		}
@@ -767,8 +773,10 @@ func (t *fnTrans) appendBuiltin(ins ssa.Instruction, c *ssa.CallCommon, res ssa.
 		bv := q(fmt.Sprintf("j!q%d", t.nfr))
 		lo1 := add(s.C[1], ls)
 		in1 := and(le(lo1, bv), lt(bv, add(lo1, la)))
-		t.assume(fmt.Sprintf("(forall ((%s Int)) (! %s :pattern ((select %s %s))))", bv,
-			eq(sel(a1, bv), ite(in1, sel(sel(old, a.C[0]), add(a.C[1], sub(bv, lo1))), sel(sel(old, s.C[0]), bv))), a1, bv))
+		ab := eq(sel(a1, bv), ite(in1, sel(sel(old, a.C[0]), add(a.C[1], sub(bv, lo1))), sel(sel(old, s.C[0]), bv)))
+		aq := fmt.Sprintf("(forall ((%s Int)) (! %s :pattern ((select %s %s))))", bv, ab, a1, bv)
+		regFinite(aq, bv, s.C[1], ab)
+		t.assume(aq)
 		// fresh: A2
 		a2 := t.freshConst("ap", arrSort(cc.Sort))
 		t.nfr++
@@ -779,8 +787,10 @@ func (t *fnTrans) appendBuiltin(ins ssa.Instruction, c *ssa.CallCommon, res ssa.
 		if cc.Sort == "Bool" {
 			z = "false"
 		}
-		t.assume(fmt.Sprintf("(forall ((%s Int)) (! %s :pattern ((select %s %s))))", bv2,
-			eq(sel(a2, bv2), ite(in2a, sel(sel(old, s.C[0]), add(s.C[1], bv2)), ite(in2b, sel(sel(old, a.C[0]), add(a.C[1], sub(bv2, ls))), z))), a2, bv2))
+		ab2 := eq(sel(a2, bv2), ite(in2a, sel(sel(old, s.C[0]), add(s.C[1], bv2)), ite(in2b, sel(sel(old, a.C[0]), add(a.C[1], sub(bv2, ls))), z)))
+		aq2 := fmt.Sprintf("(forall ((%s Int)) (! %s :pattern ((select %s %s))))", bv2, ab2, a2, bv2)
+		regFinite(aq2, bv2, "0", ab2)
+		t.assume(aq2)
 		t.heapSet(t.st, hn, hs, ite(inplace, sto(old, s.C[0], a1), sto(old, newArr, a2)))
 	}
 	t.define(res, res.Type(), []string{
